@@ -6,7 +6,7 @@
 // since the last end-of-height marker; after the crash (WAL tail cut anywhere in the unsynced region) the restart
 // goes through the real start-up path (repair loop, catch-up replay); the recovered round state must not be behind
 // any fingerprint whose records all survived, and must equal it when exactly those records survived.
-package c15b
+package c15
 
 import (
 	"fmt"
@@ -18,8 +18,6 @@ import (
 	"verif/lib"
 	"verif/pnode"
 )
-
-func TestMain(m *testing.M) { lib.Main(m) }
 
 func TestReplayRestoresRoundState(t *testing.T) {
 	rapid.Check(t, func(t *rapid.T) {
